@@ -74,6 +74,32 @@ def replay_file(prop_id, path, obls, quiet=False):
     return sigs
 
 
+def _replay_task(args):
+    """(prop_id, path) -> (path, {sig: detail}) ; runs in a worker process."""
+    prop_id, path = args
+    try:
+        return path, replay_file(prop_id, path, runner.get_obligations(prop_id), quiet=True), None
+    except HarnessError as e:
+        return path, {}, str(e)
+
+
+def replay_many(prop_id, paths, jobs):
+    """Replay committed witnesses (in parallel when there are several: some replays start interpreters or run long schedules)."""
+    paths = list(dict.fromkeys(paths))
+    if not paths:
+        return {}
+    if jobs <= 1 or len(paths) < 3:
+        out = [_replay_task((prop_id, p)) for p in paths]
+    else:
+        ctx = mp.get_context("fork")
+        with ProcessPoolExecutor(max_workers=min(jobs, len(paths)), mp_context=ctx) as ex:
+            out = list(ex.map(_replay_task, [(prop_id, p) for p in paths], chunksize=1))
+    for p, sigs, err in out:
+        if err:
+            raise HarnessError(err)
+    return {p: sigs for p, sigs, err in out}
+
+
 def write_replay(prop_id, oname, sig, case, detail, seed, tier, prefix="new"):
     d = os.path.join(HOME, "replays", prop_id)
     os.makedirs(d, exist_ok=True)
@@ -133,43 +159,34 @@ def run_check(prop_id, obls, tier, seed, args, t0):
     # ---- replay tier: committed witnesses --------------------------------------------------
     replayed = 0
     active_known = []
+    rdir = os.path.join(HOME, "replays", prop_id)
+    seeds_files = [os.path.join(rdir, fn) for fn in sorted(os.listdir(rdir))
+                   if fn.startswith("seed-") and fn.endswith(".json")] if os.path.isdir(rdir) else []
+    wpath = lambda e: os.path.join(HOME, e["witness"]) if e.get("witness") and os.path.exists(os.path.join(HOME, e["witness"])) else None
+    todo = [wpath(e) for e in open_known + fixed_known if wpath(e)] + seeds_files
+    replays = replay_many(prop_id, todo, args.jobs)
+    replayed = len(replays)
     for e in open_known:
-        w = e.get("witness")
-        if w and os.path.exists(os.path.join(HOME, w)):
-            replayed += 1
-            sigs = replay_file(prop_id, os.path.join(HOME, w), runner.get_obligations(prop_id), quiet=True)
-            if any(sig_matches(e["signature"], s) for s in sigs):
+        w = wpath(e)
+        if w:
+            if any(sig_matches(e["signature"], s) for s in replays[w]):
                 active_known.append(e)
             else:
                 stale.append(e)
                 print(f"NOTE: known finding no longer reproduces (not excluded in this run): {e['signature']}")
         else:
             active_known.append(e)
-    for e in fixed_known:
-        w = e.get("witness")
-        if w and os.path.exists(os.path.join(HOME, w)):
-            replayed += 1
-            sigs = replay_file(prop_id, os.path.join(HOME, w), runner.get_obligations(prop_id), quiet=True)
-            for s in sigs:
-                if not any(sig_matches(k["signature"], s) for k in active_known):
-                    violations.append((s, os.path.join(HOME, w), sigs[s]))
-    # regression seeds: replays/<id>/seed-*.json must be clean
-    rdir = os.path.join(HOME, "replays", prop_id)
-    if os.path.isdir(rdir):
-        for fn in sorted(os.listdir(rdir)):
-            if fn.startswith("seed-") and fn.endswith(".json"):
-                replayed += 1
-                sigs = replay_file(prop_id, os.path.join(rdir, fn), runner.get_obligations(prop_id), quiet=True)
-                for s in sigs:
-                    if not any(sig_matches(k["signature"], s) for k in active_known):
-                        violations.append((s, os.path.join(rdir, fn), sigs[s]))
+    for w in [wpath(e) for e in fixed_known if wpath(e)] + seeds_files:
+        for s_, d_ in replays[w].items():
+            if not any(sig_matches(k["signature"], s_) for k in active_known):
+                violations.append((s_, w, d_))
 
     # ---- search tier -----------------------------------------------------------------------
     tasks = []
     for o in obls:
         n = int(math.ceil(o.budget.get(tier, o.budget.get("quick", 100)) * args.scale))
         if n > 0:
-            shards = max(1, min(o.max_shards, args.jobs, n // 20 or 1))
+            shards = max(1, min(o.max_shards, args.jobs, n // max(1, o.min_cases_per_shard) or 1))
             per = int(math.ceil(n / shards))
             for s in range(shards):
                 tasks.append((prop_id, o.name, tier, seed, per, s, "gen"))
